@@ -6,12 +6,14 @@ from vlib import native
 from props import yuvfam as Y
 
 
-def w_instances(tier, seed, per_quick=1):
+def w_instances(tier, seed, per_quick=1, light=False):
     """(T, bd, full, matrix index) instances for the wiring lemmas: thorough = all 20 x 7; quick = every matrix
     at least once, spread over a seeded choice of (storage, depth, range) instances"""
     if tier == "thorough":
         return [(T, bd, f, mi) for (T, bd, f) in Y.CFGS for mi in range(7)]
     cfgs = select_cfgs(tier, seed)
+    if light:   # encode wiring lemmas at 13..16 bit take 10+ minutes each: quick tier stays at <= 12 bit (all depths in thorough)
+        cfgs = [("u8", 8, False), ("u8", 8, True), ("u16", 10, False), ("u16", 12, True), ("u16", 9, True), ("u16", 11, False)]
     out = []
     for mi in range(7):
         for k in range(per_quick):
@@ -85,7 +87,7 @@ def plan(tier, seed):
                 for q in Y.glue_c01(consts, mc, bd, full):
                     res = q.run(cross=(bd in (8, 16)))
                     if res["status"] == "sat":
-                        res["replay"] = {"reproduced": None, "detail": "glue model is real-valued; see lemma counterexamples"}
+                        res["replay"] = Y.replay_glue(ctx, q, res, "c01", mc, bd, full)
                     out.append(res)
         return out
     p.late = late
